@@ -125,13 +125,11 @@ theorem bpm_load_save_partial (h : Header) (s : Bpm α) (f : File α) (ucomp : L
     (hq : ∀ row ∈ s.q, row.length = s.ns) (hlen : s.q.length = s.t.length) :
     ∃ c, s.cj.getLast? = some c ∧
       loadBpm st f = { s with particles := lagReset st (s.particles.map Particle.forget), cj := [c] } ∧
-      ((∀ x ∈ st, x.heatOff = false) →
-        (loadBpm st f).particles.map Particle.noState = (s.particles.map Particle.forget).map Particle.noState) := by
+      (loadBpm st f).particles.map Particle.noState = (s.particles.map Particle.forget).map Particle.noState := by
   obtain ⟨c, hc, hl⟩ := bpm_file_load_save_partial h s f ucomp hs hX hK hwf hq hlen
   refine ⟨c, hc, ?_, ?_⟩
   · simp only [loadBpm, hl]
-  · intro hh
-    simp only [loadBpm, hl, lagReset_noState _ _ hh]
+  · simp only [loadBpm, hl, lagReset_noState]
 
 /-- [T-def] hence the particle state of a reloaded bent-plume model is NOT the saved one: a
     particle that had left the plume (`integrate = false`, position of the exit) comes back as
@@ -239,12 +237,16 @@ theorem bpm_file_resave_fixpoint (h : Header) (s : Bpm α) (f : File α) (ucomp 
   simp only [saveBpm, hc, List.getLast?_singleton, saveTable_forget]
   rfl
 
-/-- [T-def] a transfer factor IS lost by `load_sim`: a particle within 0.5 K of the plume water at the
-    first row comes back with `K_T = 0` although the file (and the reloaded model's `K_T0`) hold the
-    saved value — `load_sim` never restores `K_T` from `K_T0` as `simulate` does -/
-theorem bpm_K_T_zeroed_on_load (p : Particle α) (x : PState α) (hx : x.heatOff = true) :
-    (lagReset [x] [p]).map (·.K_T) = [0] := by
-  simp [lagReset, hx]
+/-- the heat-transfer factors of a reloaded bent-plume model are the saved ones: whatever the first
+    Lagrangian element does to the particles, `load_sim` restores `K_T` from `K_T0` (= the file) -/
+theorem bpm_K_T_restored_on_load (h : Header) (s : Bpm α) (f : File α) (ucomp : List String) (st : List (PState α))
+    (hs : saveBpm h s = some f) (hX : s.X.length = 3) (hK : s.K_T0 = s.particles.map (·.K_T))
+    (hwf : ListWF 2 s.chem_names ucomp s.Ta s.particles)
+    (hq : ∀ row ∈ s.q, row.length = s.ns) (hlen : s.q.length = s.t.length) :
+    (loadBpm st f).particles.map (·.K_T) = s.K_T0 ∧ (loadBpm st f).K_T0 = s.K_T0 := by
+  obtain ⟨c, hc, hl, _⟩ := bpm_load_save_partial h s f ucomp st hs hX hK hwf hq hlen
+  rw [hl]
+  simp only [lagReset_K_T, forget_K_T, hK, and_self]
 
 /-- re-saving what `load_sim` returns writes the file of the saved model with the particle state
     replaced by the reset one (columns integrate, tp, xp, yp, zp); everything else is a fixpoint -/
